@@ -303,7 +303,7 @@ struct VarWorld {
         [&]<std::size_t... Is>(std::index_sequence<Is...>) {
             ((r.b(nh[Is], NS::template holds<Alt<Is>>(cv)), r.b(ng[Is], NS::template get_if<Is>(&cv) != nullptr),
                  r.b(ngt[Is], NS::template get_if_t<Alt<Is>>(&v) != nullptr),
-                 (NS::template get_if<Is>(&v) != nullptr ? r.i(ngv[Is], enc(*NS::template get_if<Is>(&v))) : (void)0)),
+                 r.i(ngv[Is], NS::template get_if<Is>(&v) != nullptr ? enc(*NS::template get_if<Is>(&v)) : kAbsent)),
                 ...);
         }(std::make_index_sequence<N>{});
     }
